@@ -195,6 +195,23 @@ def blocked_one(args):
                     rec['end'] = ('raised', type(why).__name__ + ':' + repr(why)[:60])
                 rec['t_end'] = sched.now
                 sched.ev('c06_call_end', (i, rec['end'][0], rec['end'][1]))
+                # "and every later call": the same thread simply tries again (a polling consumer does exactly that)
+                if b in ('pde', 'rpc', 'get') and rec['end'][0] == 'raised' and ch is not None:
+                    again = []
+                    for _k in range(2):
+                        try:
+                            if b == 'pde':
+                                ch.process_data_events()
+                            elif b == 'rpc':
+                                ch.queue.declare('again%d' % i)
+                            else:
+                                ch.basic.get('gq%d' % i)
+                            again.append('returned')
+                        except amqpstorm.AMQPError as why:
+                            again.append(type(why).__name__)
+                        except BaseException as why:   # noqa
+                            again.append(type(why).__name__ + ':' + repr(why)[:40])
+                    rec['again'] = again
             return fn
 
         threads = []
@@ -694,6 +711,10 @@ def judge_blocked(rep, sc, seed, r, bound, idle):
         elif end[1] != 'AMQPConnectionError':
             rep.violation('C06/wrong-exception/%s/%s' % (b, end[1].split(':')[0]), 'thread %d (%s) got %s instead of AMQPConnectionError' % (i, b, end[1]), replay)
             continue
+        bad_again = [x for x in rec.get('again', []) if x != 'AMQPConnectionError']
+        if bad_again:
+            rep.violation('C06/wrong-exception/later-call-same-thread/%s' % bad_again[0].split(':')[0],
+                          'thread %d (%s) got AMQPConnectionError, called again and got %r' % (i, b, rec['again']), replay)
         t0 = ft
         if b == 'idle-call':
             t0 = max(ft, rec['start'] + sc['idle_ms'])
